@@ -134,6 +134,45 @@ CHECKS['C05'] = dict(
          "13 known findings C05-<deviation>.",
     technique="Lean 4 proof (refinement of the code model to an X.691 specification encoder, mutual structural induction) + byte-exact three-way differential check (implementation, code model, specification)",
     ref="DESIGN.md §4 C05")
+CHECKS['C20'] = dict(
+    text="Lean theorems gser_roundtrip / gser_roundtrip_top / gser_roundtrip_octets: for ALL well-formed types of the model universe, ALL accepted values and BOTH layouts (compact and indented with ANY indent width) the text the GSER writer model emits "
+         "is parsed COMPLETELY by an independent RFC 3641 reader written in Lean from the ABNF (gser_parse_render: parseValue (render indent g) = g for every well-formed generic tree; gser_parse_layout for any white-space separator) and maps back, directed by the type, to the canonical abstract value; "
+         "gser_enc_total (typed values always encode), gser_injective / gser_different_values_different_texts / gser_injective_octets (equal texts imply equal abstract values, across layouts), gser_indent_irrelevant, gser_reencode; "
+         "the recorded deviation (white space around the ':' of a ChoiceValue, not in the ABNF) is a decidable finding predicate: gser_strict_outside_choice proves the strict ABNF reader reads every text without a ChoiceValue, strict_abnf_rejects_choice_text is the witness; "
+         "closed witness theorems show that each hypothesis (identifier names, typereference, typed value) is necessary. "
+         "The writer model is tied to codecs/gser.py by octet-exact text equality on every generated (module, value, indent in {None,0,2,4}); the Lean reader is run on the implementation's own octets and must return the value; an independent type-directed RFC 3641 reader written in Python "
+         "gives a second opinion and covers REAL (0, -0, +-inf, NaN, huge / tiny magnitudes), OBJECT IDENTIFIER, SET, SET OF, named-bit BIT STRING and the time types; injectivity is sampled directly on random and near-miss pairs; "
+         "regression vectors for the two repaired defects (empty BIT STRING, quote doubling).",
+    note=NOTE_COMMON + "Partial: REAL, OBJECT IDENTIFIER, SET, SET OF, named bits, time types, addition groups are outside the Lean universe (Python reader + direct evaluation only); CPython str(int) / repr(float) / str.replace / str.encode are trusted externals; "
+         "the readers accept HT/LF/CR as white space (the indented layout needs new-lines) and white space around ':' (X.680 value notation). Known findings C20-real-exponent-form, C20-choice-colon-white-space, C20-addition-group-mandatory, C20-real-int-overflow.",
+    technique="Lean 4 proof (writer model -> generic tree -> layout; RFC 3641 reader written in Lean; parse-of-render by mutual structural induction over trees, tree round trip by structural induction over Ty) + text-exact differential correspondence + two independent readers on the implementation's output",
+    ref="DESIGN.md §4 C20")
+CHECKS['C09'] = dict(
+    text="Lean theorems about the checked model (Asn1Model/CCursor.lean) of the C helper library that asn1tools emits into EVERY generated UPER source: encode_no_fault / decode_no_fault (no sequence of helper calls whose arguments "
+         "satisfy the stated preconditions performs an out-of-bounds access, an undefined shift or a signed overflow, for all buffer sizes, contents and cursor positions), short_buffer / short_input (a destination that is too small latches -ENOMEM, "
+         "exhausted input latches -EOUTOFDATA, and the latch is frozen), encode_functional / enc_bits (the bits written are exactly the concatenation of the appended bit strings), roundtrip (the decoder helpers read back what the encoder helpers wrote, "
+         "for every helper and every interleaving); closed witnesses of the undefined behaviour outside the preconditions. The model is tied to the helper TEXT the real generator emits by running random precondition-respecting call sequences through gcc -O2, "
+         "clang ASan+UBSan and the compiled Lean model (identical cursor states, return values and buffers). The per-type statements the generator puts around the helpers are NOT modelled: they are evaluated on every run by translating seeded modules of the documented subset "
+         "(two modules with IMPORTS, boundary ranges / sizes / counts, OPTIONAL / DEFAULT patterns, nesting >= 3) with the real generator, compiling them twice (gcc -std=c99 -O2 -Wall -Wextra; clang -fsanitize=address,undefined) together with a test driver derived from the "
+         "specification and the PARSED generated header, and comparing encode (exact-size malloc and every smaller size), decode (every struct field dumped), every strict prefix, and mutated / random inputs (accepted => re-encode and re-decode identical) with the Python UPER codec; "
+         "constructs outside the subset must raise asn1tools.errors.Error.",
+    note=NOTE_COMMON + "Partial: per-type generated statements and struct layout are evaluated by compile-and-run, not modelled (the theorems cover the helper library only); gcc 12 / clang 14 / ASan / UBSan trusted; the Python UPER codec is the reference. "
+         "Known findings C09-real-dropped, C09-int-range-wider-than-ctype, C09-extensible-choice-enum-no-extension-bit, C09-int-fixed-width-helper-mismatch, C09-int-offset-arithmetic-overflow, C09-length-wraps-in-uint8, "
+         "C09-enum-hyphen-keyerror, C09-enum-default-hyphen, C09-size-over-65535-typeerror, C09-recursive-type-recursionerror, C09-bit-string-default-invalid-c, C09-structured-default-invalid-c, C09-c-keyword-member-name, C09-type-name-collision.",
+    technique="Lean 4 proof (memory safety, error latch and functional correctness of a checked model of the emitted C helper library) + three-way differential correspondence (gcc, clang sanitizers, Lean) + compile-and-run equivalence of generated programs with the Python codec under ASan/UBSan",
+    ref="DESIGN.md §4 C09/C10")
+CHECKS['C10'] = dict(
+    text="Lean theorems about the checked model (Asn1Model/CCursorOer.lean) of the C helper library emitted into every generated OER source: enc_safety / dec_safety (no helper call sequence respecting the preconditions faults), short_buffer, enc_latched_frozen / dec_latched_frozen, "
+         "readTag_terminates, length determinant theorems (append_length_determinant_content, length_determinant_length_correct, roundtrip_lendet), integer / uint round trips, and the generation-time defect as theorems (static_ne_true_iff: get_length_determinant_length is wrong exactly on [1677726, 16777216), static_defect_smallest). "
+         "Tied to the emitted helper text by three-way runs (gcc, clang ASan+UBSan, Lean model) and to oer.py's generation-time function by comparing it with the model's staticLenDetLen and with the Python encoder. The per-type generated statements are evaluated, not modelled: seeded modules of the documented OER subset "
+         "(as C09 plus REAL binary32/64 and extension additions) are translated, compiled twice and compared with the Python OER codec on encode (all destination sizes), decode (all fields incl. addition presence flags), prefixes and mutated inputs; VERSION SKEW: V2 = V1 + appended additions, the Python V2 bytes (checked equal to the V2 generated C) "
+         "are decoded by the V1 generated C and must give the V1 projection; generation-time constants (type_length, value_length, enumerated value length, preamble and bitmap lengths) are compared with the Python codec over boundary values; constructs outside the subset must raise asn1tools.errors.Error.",
+    note=NOTE_COMMON + "Partial: per-type generated statements, struct layout and the open-type length arithmetic are evaluated by compile-and-run, not modelled; gcc/clang/sanitizers trusted; the Python OER codec is the reference (values avoid its own recorded defects). "
+         "Known findings C10-lendet-typo, C10-int-range-wider-than-ctype, C10-bit-string-5-to-7-octets, C10-length-truncated-before-check, C10-seqof-fixed-size-over-255, C10-enum-unknown-value-accepted, C10-empty-extension-marker-additions-not-skipped, "
+         "C10-unknown-additions-after-8k-known, C10-additions-scan-clobbers-element-index, C10-addition-open-type-length, C10-addition-open-type-length-ignored-on-decode, C10-addition-choice-helper-name-collision, C10-addition-name-hyphen, C10-enum-default-hyphen, "
+         "C10-recursive-type-recursionerror, C10-bit-string-default-invalid-c, C10-structured-default-invalid-c, C10-c-keyword-member-name, C10-type-name-collision.",
+    technique="Lean 4 proof (safety, latch and length-determinant theorems about a checked model of the emitted C helper library; the static length defect as a theorem) + three-way differential correspondence + compile-and-run equivalence and version-skew check of generated programs under ASan/UBSan",
+    ref="DESIGN.md §4 C09/C10")
 NOT_APPLICABLE = []
 
 def main():
